@@ -40,7 +40,11 @@ ASSUMPTIONS = [
     "a driver that ends in the solver's NameError('Loadstep failed to converge') is an honest failure (step vacuous)",
 ]
 CLASSES = ["param_update", "warm_direct_plain", "warm_direct_scaled", "warm_direct_constrained", "warm_direct_jaxsafe",
-           "scaled_vs_unscaled_nes", "scaled_vs_unscaled_spg", "seq_nes", "seq_spg", "seq_bcs", "seq_al"]
+           "scaled_vs_unscaled_nes", "scaled_vs_unscaled_spg", "seq_nes", "seq_spg", "seq_bcs", "seq_al",
+           "warm_ladder_direct", "seq_ladder"]
+INC_LADDER = [-14, -12, -10, -8, -6, -4, -2, 0]
+SCALE_LADDER_DIRECT = [-12, -8, -4, 4, 8, 12]
+SCALE_LADDER_SEQ = [-12, -6, 3]
 REQUIRED = {
     "all": dict([("class:" + c, 1 if c == "param_update" else 16) for c in CLASSES] + [
         ("param_update_checks", 36),
@@ -50,6 +54,13 @@ REQUIRED = {
         ("entry_point_checked_warm", 200), ("entry_point_checked_cold", 200),
         ("warm_nl_scaled_nonzero:nes", 12), ("warm_nl_scaled_nonzero:spg", 8), ("warm_nl_scaled_nonzero:bcs", 8),
         ("warm_nl_nonzero:al", 15),
+    ] + [("ladder_direct_inc:1e%d" % e, 5) for e in INC_LADDER] + [("ladder_direct_inc:mixed", 5)]
+      + [("ladder_direct_scale:1e%d" % e, 6) for e in SCALE_LADDER_DIRECT]
+      + [("ladder_direct_kind:%s" % k, 8) for k in ("plain:slot0", "plain:slot2", "scaled:slot0", "scaled:slot2",
+                                                     "constrained:slot0", "jaxsafe:slot0")]
+      + [("ladder_seq_inc:1e%d" % e, 3) for e in INC_LADDER] + [("ladder_seq_inc:mixed", 3)]
+      + [("ladder_seq_scale:1e%d" % e, 3) for e in SCALE_LADDER_SEQ]
+      + [("ladder_seq_driver:%s" % d, 8) for d in ("nes", "spg", "bcs", "al")] + [
         ("scaled_solution_checked", 100), ("unscaled_solution_checked", 100), ("reference_certified", 200), ("scaling_decades_ge3", 25),
         ("steps:nes:warm", 40), ("steps:nes:cold", 40), ("steps:spg:warm", 40), ("steps:spg:cold", 40),
         ("steps:bcs:warm", 40), ("steps:bcs:cold", 40), ("steps:al:warm", 40), ("steps:al:cold", 40),
@@ -114,6 +125,56 @@ def build_cases(tier, seed):
                     c["second_order"] = bool((i // 4) % 2)
                     c["css"] = float(rng.choice([1.0, 0.5, 4.0])) if c["scaled"] else 1.0
             cases.append(c)
+    # ---- increment-size / data-scale ladder (fine load stepping, cut-back steps, tiny or huge parameter data)
+    # (the nl family is not scale-homogeneous: its (p2.p2) x'A2 x term makes the Hessian numerically singular for huge
+    #  data, outside the property's SPD hypothesis, so data scales > 1 use the quadratic family; tiny scales use both)
+    reps = 1 if quick else 20
+    combos = [("warm_direct_plain", 0), ("warm_direct_plain", 2), ("warm_direct_scaled", 0), ("warm_direct_scaled", 2),
+              ("warm_direct_constrained", 0), ("warm_direct_jaxsafe", 0)]
+    rungs = [(e, 0, False) for e in INC_LADDER] + [(-10, 0, True)]
+    rungs += [(e, ps, False) for ps in SCALE_LADDER_DIRECT for e in (-2, 0)]
+    i = 0
+    for rep in range(reps):
+        for kind, index in combos:
+            for inc_exp, ps, mixed in rungs:
+                s = derive_seed(seed, PROPERTY, "warm_ladder_direct", i)
+                rng = rng_of(derive_seed(s, "params"))
+                c = {"cls": "warm_ladder_direct", "kind": kind, "seed": s, "group": "l%d" % (i % 32), "cost": 0.7,
+                     "n": int(rng.integers(3, 9)), "family": ["quad", "nl"][i % 2] if ps <= 0 else "quad", "tol": 1e-8, "index": index,
+                     "inc_exp": inc_exp, "pscale_exp": ps, "mixed": mixed, "at_solution": bool(rng.random() < 0.75),
+                     "other_slots_change": False, "zero_change": False,
+                     "decades": 0 if kind == "warm_direct_plain" else int(rng.choice([0, 2, 4, 6])),
+                     "precond": ["fresh", "stale", "jacobi"][i % 3] if kind in ("warm_direct_scaled", "warm_direct_jaxsafe") else ["fresh", "stale"][i % 2]}
+                if kind == "warm_direct_constrained":
+                    c["front_end"] = bool(i % 2)
+                    c["scaled"] = bool((i // 2) % 2)
+                if kind == "warm_direct_jaxsafe":
+                    c["scaled"] = bool(i % 2)
+                cases.append(c)
+                i += 1
+    srungs = [(e, 0, False) for e in INC_LADDER] + [(-10, 0, True)] + [(e, ps, False) for ps in SCALE_LADDER_SEQ for e in (-2,)]
+    i = 0
+    for rep in range(reps):
+        for drv in ("nes", "spg", "bcs", "al"):
+            for inc_exp, ps, mixed in srungs:
+                s = derive_seed(seed, PROPERTY, "seq_ladder", i)
+                rng = rng_of(derive_seed(s, "params"))
+                c = {"cls": "seq_ladder", "drv": drv, "seed": s, "group": "m%d" % (i % 32), "cost": 1.5,
+                     "n": int(rng.integers(3, 9)), "family": ["quad", "nl"][i % 2] if ps <= 0 else "quad",
+                     "tol": float(rng.choice([1e-8, 1e-6])),
+                     "steps": int(rng.integers(2, 5)), "warm": True, "refresh": bool(rng.random() < 0.7),
+                     "scaled": bool((i // 2) % 2) if drv != "al" else False, "slot0_only": bool(rng.random() < 0.5),
+                     "inc_exp": inc_exp, "pscale_exp": ps, "mixed": mixed}
+                c["decades"] = int(rng.choice([2, 4, 6])) if c["scaled"] else int(rng.choice([0, 1, 3]))
+                if drv == "al":
+                    c["second_order"] = bool((i // 2) % 2)
+                    c["precond_before_warm"] = bool(i % 2)
+                    c["decades"] = 0
+                if drv == "bcs":
+                    c["second_order"] = bool((i // 4) % 2)
+                    c["css"] = float(rng.choice([1.0, 0.5, 4.0])) if c["scaled"] else 1.0
+                cases.append(c)
+                i += 1
     return cases
 
 
@@ -324,11 +385,15 @@ def _run_warm_direct(case, res):
     from vlib.oracles import c19_dense as orc
 
     rng = rng_of(case["seed"])
-    cls = case["cls"]
+    cls = case.get("kind", case["cls"])
     n = case["n"]
     E = gen.make_energy(rng, n, case["family"], case["decades"])
     index = case["index"]
-    path = gen.load_path(rng, 1, slot0_only=False)
+    ladder = "inc_exp" in case
+    if ladder:
+        path = gen.load_path_ladder(rng, 1, case["inc_exp"], 10.0 ** case["pscale_exp"], mixed=case["mixed"])
+    else:
+        path = gen.load_path(rng, 1, slot0_only=False)
     old, new = list(path[0]), list(path[1])
     if not case["other_slots_change"]:
         # only the slot under test changes
@@ -336,7 +401,10 @@ def _run_warm_direct(case, res):
             if j != index:
                 new[j] = old[j]
     if index == 2:
-        new[2] = old[2] + rng.standard_normal(gen.NP2) * 0.5
+        if ladder:
+            new[2] = gen.ladder_increment(rng, old[2], case["inc_exp"], case["mixed"])
+        else:
+            new[2] = old[2] + rng.standard_normal(gen.NP2) * 0.5
     if case["zero_change"]:
         new[index] = onp.array(old[index])
     p_old, p_new = _params(old), _params(new)
@@ -415,6 +483,10 @@ def _run_warm_direct(case, res):
     if ref is None:
         return res
     res.count("warm_direct_checked")
+    if ladder and float(onp.linalg.norm(ref["b"])) > 0:
+        res.count("ladder_direct_inc:%s" % ("mixed" if case["mixed"] else "1e%d" % case["inc_exp"]))
+        res.count("ladder_direct_scale:1e%d" % case["pscale_exp"])
+        res.count("ladder_direct_kind:%s:slot%d" % (cls[12:], index))
     res.count("warm_direct_index%d" % index)
     res.count("precond_" + case["precond"])
     changed = float(onp.linalg.norm(ref["b"])) > 0
@@ -562,10 +634,15 @@ def _run_sequence(case, res):
     from vlib.oracles import c19_dense as orc
 
     rng = rng_of(case["seed"])
-    drv = case["cls"][4:]
+    drv = case.get("drv", case["cls"][4:])
+    ladder = "inc_exp" in case
     n = case["n"]
     E = gen.make_energy(rng, n, case["family"], case["decades"])
-    path = gen.load_path(rng, case["steps"], slot0_only=case["slot0_only"])
+    if ladder:
+        path = gen.load_path_ladder(rng, case["steps"], case["inc_exp"], 10.0 ** case["pscale_exp"], mixed=case["mixed"],
+                                    slot0_only=case["slot0_only"])
+    else:
+        path = gen.load_path(rng, case["steps"], slot0_only=case["slot0_only"])
     f = _make_f(E)
     pc = path[0]
     p_c = _params(pc)
@@ -695,6 +772,10 @@ def _run_sequence(case, res):
             res.count("insitu_linearisation_point_checked")
             if float(onp.linalg.norm(ref["b"])) > 0:
                 res.nontrivial = True
+                if ladder:
+                    res.count("ladder_seq_inc:%s" % ("mixed" if case["mixed"] else "1e%d" % case["inc_exp"]))
+                    res.count("ladder_seq_scale:1e%d" % case["pscale_exp"])
+                    res.count("ladder_seq_driver:%s" % drv)
             # landing in situ: quadratic, unconstrained, only slot 0 differs from the previous request
             if (drv == "nes" and E["family"] == "quad" and onp.array_equal(pt[2], prev_pt[2]) and pt[4] == prev_pt[4]):
                 yold = _ref(res, E, prev_pt[0], prev_pt[2], prev_pt[4])
@@ -791,7 +872,7 @@ def run_case(case):
     cls = case["cls"]
     if cls == "param_update":
         return _run_param_update(case, res)
-    if cls.startswith("warm_direct"):
+    if cls.startswith("warm_direct") or cls == "warm_ladder_direct":
         return _run_warm_direct(case, res)
     if cls.startswith("scaled_vs_unscaled"):
         return _run_scaled_vs_unscaled(case, res)
